@@ -119,12 +119,51 @@ def fresh_goal(st, K, resv, exempt=("value",)):
             return z3.BoolVal(False)
 
         gs.append(st.forall(k, c.dom(k), isnew(c.val(k)), equiv=True, name="fresh." + f))
+    wm = specs.WEIGHTMAP.get(K)
+    if wm:
+        fv = o.fields.get(wm)
+        gs.append(z3.BoolVal(isinstance(fv, VObj) and fv.oid in st.new_oids))
     return z3.And(gs) if gs else z3.BoolVal(True)
 
 
 def distinct_children_goal(st, K, resv):
-    """children made from one template are pairwise distinct objects (C06 ctor clause)."""
-    return z3.BoolVal(True)
+    """no internal sharing: the child slots of the result hold pairwise distinct objects (numerator is not the
+    denominator, no two bins are one object, a flow is not a bin)."""
+    if not isinstance(resv, VObj) or not isinstance(st.obj(resv), Inst):
+        return z3.BoolVal(False)
+    o = st.obj(resv)
+    ones, fams = [], []
+    for f, kind in specs.CHILDREN.get(K, {}).items():
+        fv = o.fields.get(f)
+        if kind == "one":
+            if not isinstance(fv, VChild):
+                return z3.BoolVal(False)
+            ones.append(fv.ref)
+        else:
+            if not isinstance(fv, VObj):
+                return z3.BoolVal(False)
+            fams.append((f, kind, comp_of(st, fv)))
+    gs = [a != b for i, a in enumerate(ones) for b in ones[i + 1 :]]
+
+    def ref_of(comp, kind):
+        if isinstance(comp, SV.CIte):
+            return z3.If(comp.c, ref_of(comp.a, kind), ref_of(comp.b, kind))
+        if kind == "pairs" and isinstance(comp, CTuple) and len(comp.items) == 2:
+            comp = comp.items[1]
+        if isinstance(comp, CChild) and comp.ref is not None:
+            return comp.ref
+        return core.Ref.Ext(z3.IntVal(-7))
+
+    for f, kind, c in fams:
+        k1 = st.fresh("sk.k1." + f, c.ksort)
+        k2 = st.fresh("sk.k2." + f, c.ksort)
+        st.add_index(k1)
+        st.add_index(k2)
+        r1, r2 = ref_of(c.val(k1), kind), ref_of(c.val(k2), kind)
+        gs.append(z3.Implies(z3.And(c.dom(k1), c.dom(k2), r1 == r2), k1 == k2))
+        for a in ones:
+            gs.append(z3.Implies(c.dom(k1), r1 != a))
+    return z3.And(gs) if gs else z3.BoolVal(True)
 
 
 def frame_goal(st, pre, skip_oids=(), only_oids=None, allow_fields=BENIGN_FIELDS, views=True, view_guard=None):
@@ -399,6 +438,7 @@ def ob_zero(P, K, hooks=None, mode="live"):
             continue
         s = r.st
         cx.emit(["C06"], "ensures:fresh", p, s, lambda s2: fresh_goal(s2, K, r.v))
+        cx.emit(["C06"], "ensures:no-internal-sharing", p, s, lambda s2: distinct_children_goal(s2, K, r.v))
         cx.emit(["C06"], "ensures:frame", p, s, lambda s2: frame_goal(s2, pre))
         cx.emit(["C01", "C08", "C04"], "ensures:wf", p, s, lambda s2: wf_goal(s2, K, r.v))
         if K == "Branch":
@@ -438,6 +478,7 @@ def ob_add(P, K, hooks=None, mode="live"):
             for part in compat_part_names(K):
                 cx.emit(["C10"], "ensures:compatible-" + part, p, s, lambda s2, part=part: specs_compat(s2, K, pre, selfv, other, part))
             cx.emit(["C06"], "ensures:fresh", p, s, lambda s2: fresh_goal(s2, K, r.v))
+            cx.emit(["C06"], "ensures:no-internal-sharing", p, s, lambda s2: distinct_children_goal(s2, K, r.v))
             cx.emit(["C06"], "ensures:frame", p, s, lambda s2: frame_goal(s2, pre))
             cx.emit(["C01", "C08", "C04"], "ensures:wf", p, s, lambda s2: wf_goal(s2, K, r.v))
             if K == "Branch":
@@ -614,6 +655,7 @@ def ob_mul(P, K, method="__mul__", hooks=None, mode="live"):
             cx.emit(["C08"], "ensures:no-raise", p, s, z3.BoolVal(False))
             continue
         cx.emit(["C06"], "ensures:fresh", p, s, lambda s2: fresh_goal(s2, K, r.v))
+        cx.emit(["C06"], "ensures:no-internal-sharing", p, s, lambda s2: distinct_children_goal(s2, K, r.v))
         cx.emit(["C06"], "ensures:frame", p, s, lambda s2: frame_goal(s2, pre))
         cx.emit(["C08"], "ensures:wf", p, s, lambda s2: wf_goal(s2, K, r.v))
         if K == "Branch":
